@@ -559,6 +559,242 @@ def run_recreate(ck, prop, n):
                   found_input=bool(bad))
 
 
+BIDIR_CLOSES = ["a_disc_b", "b_disc_a", "c_stop", "eof_a_out", "eof_a_in", "c_disc_a"]
+
+
+def scenario_bidir(s, seed, lines=False):
+    """Contexts a and b connected in BOTH directions (each has its own outgoing connection to the other), a third
+    context c connected to both, subscriptions in both directions; ONE connection (or c) is closed while both
+    publishers publish.  Records what every handle_peer_context_removed call is told."""
+    import random
+    import threading as real_threading
+    import qmi.core.context as C
+    import qmi.core.rpc as R
+    import qmi.core.pubsub as P
+    from qmi.core.config_defs import CfgQmi, CfgContext
+    from qmi.core.exceptions import QMI_TimeoutException
+    logging.disable(logging.CRITICAL)
+    rng = random.Random(seed)
+    how = BIDIR_CLOSES[seed % len(BIDIR_CLOSES)]
+    obs = {"how": how, "pubs": {"a": [], "b": []}, "phase": {}, "queues": {}, "notices": [], "done": False}
+    s.obs = obs
+    s.recording = False
+
+    class Pub(R.QMI_RpcObject):
+        s = P.QMI_Signal([int])
+
+    pa, pb = 56000 + (seed % 400) * 2, 56001 + (seed % 400) * 2
+    cfg = CfgQmi(contexts={"a": CfgContext(host="127.0.0.1", tcp_server_port=pa), "b": CfgContext(host="127.0.0.1", tcp_server_port=pb)})
+    A, B, Cc = C.QMI_Context("a", cfg), C.QMI_Context("b", cfg), C.QMI_Context("c", cfg)
+    ctxs = {"a": A, "b": B, "c": Cc}
+    # what the signal manager of every context is told when a connection goes away (installed before start:
+    # the router accepts callbacks only while it is not running)
+    told = {"a": [], "b": [], "c": []}
+
+    def probe(nm, ctx):
+        sm = ctx._signal_manager
+        router = ctx._message_router
+
+        def cb(name):
+            told[nm].append(name)
+            sm.handle_peer_context_removed(name)
+        router.set_peer_context_callbacks(None, cb)
+    for nm, ctx in ctxs.items():
+        probe(nm, ctx)
+    for c in (A, B, Cc):
+        c.start()
+    A.make_rpc_object("pub", Pub)
+    B.make_rpc_object("pub", Pub)
+    A.connect_to_peer("b", "127.0.0.1:%d" % pb)
+    B.connect_to_peer("a", "127.0.0.1:%d" % pa)
+    Cc.connect_to_peer("a", "127.0.0.1:%d" % pa)
+    Cc.connect_to_peer("b", "127.0.0.1:%d" % pb)
+    # receiver name -> (context, publisher context, connection that carries the subscription)
+    spec = {"a<-b": (A, "b", "a>b"), "b<-a": (B, "a", "b>a"), "c<-a": (Cc, "a", "c>a"), "c<-b": (Cc, "b", "c>b")}
+    recv = {}
+    for nm, (ctx, pubctx, _) in spec.items():
+        recv[nm] = P.QMI_SignalReceiver()
+        ctx.subscribe_signal(pubctx, "pub", "s", recv[nm])
+
+    def peers(ctx):
+        return sorted(ctx._message_router.get_peer_context_names())
+
+    counter = {"a": 0, "b": 0}
+
+    def publish(who, n):
+        ctx = ctxs[who]
+        for _ in range(n):
+            counter[who] += 1
+            v = counter[who]
+            ctx.publish_signal("pub", "s", v)
+            obs["pubs"][who].append(v)
+
+    def mark(phase):
+        obs["phase"][phase] = {"a": len(obs["pubs"]["a"]), "b": len(obs["pubs"]["b"])}
+
+    publish("a", 1)
+    publish("b", 1)
+    dsched.FAKE_TIME.sleep(0.5)
+    mark("before")
+    before = {nm: peers(c) for nm, c in ctxs.items()}
+
+    def find_conn(ctx, peer, incoming):
+        smgr = ctx._message_router._socket_manager
+        for alias, conn in list(smgr._peer_context_map.items()):
+            if conn.peer_context_name == peer and alias.startswith("$") == incoming:
+                return conn
+        return None
+
+    ta = real_threading.Thread(target=publish, args=("a", rng.randint(1, 3)), name="pubA")
+    tb = real_threading.Thread(target=publish, args=("b", rng.randint(1, 3)), name="pubB")
+    if lines:
+        import qmi.core.messaging as M
+        dsched.enable_line_yields([P.SignalManager.handle_peer_context_removed, P.SignalManager.publish_signal,
+                                   M._SocketManager.remove_peer_connection])
+    s.recording = True
+    ta.start()
+    tb.start()
+    if rng.random() < 0.6:
+        dsched.FAKE_TIME.sleep(rng.choice([0.0, 0.0005, 0.002]))
+    closed = set()
+    if how == "a_disc_b":
+        A.disconnect_from_peer("b")
+        closed = {"a>b"}
+    elif how == "b_disc_a":
+        B.disconnect_from_peer("a")
+        closed = {"b>a"}
+    elif how == "c_disc_a":
+        Cc.disconnect_from_peer("a")
+        closed = {"c>a"}
+    elif how == "c_stop":
+        Cc.stop()
+        closed = {"c>a", "c>b"}
+    elif how == "eof_a_out":        # the socket of a's own connection to b breaks
+        conn = find_conn(A, "b", False)
+        conn._sock._eof = True
+        conn._sock._notify()
+        closed = {"a>b"}
+    elif how == "eof_a_in":         # the socket of b's connection to a breaks (seen first at a)
+        conn = find_conn(A, "b", True)
+        conn._sock._eof = True
+        conn._sock._notify()
+        closed = {"b>a"}
+    ta.join()
+    tb.join()
+    s.recording = False
+    dsched.FAKE_TIME.sleep(1.0)
+    mark("settled")
+    publish("a", 2)
+    publish("b", 2)
+    dsched.FAKE_TIME.sleep(1.0)
+    obs["closed"] = sorted(closed)
+    for nm, ctx in ctxs.items():
+        if nm == "c" and how == "c_stop":
+            continue
+        obs["notices"].append({"ctx": nm, "before": before[nm], "told": list(told[nm]), "after": peers(ctx)})
+    for nm, r in recv.items():
+        q = []
+        while True:
+            try:
+                g = r.get_next_signal(0)
+            except QMI_TimeoutException:
+                break
+            q.append([g.publisher_context, g.publisher_name, g.signal_name, g.args[0] if len(g.args) == 1 else -1])
+        obs["queues"][nm] = q
+    obs["carrier"] = {nm: v[2] for nm, v in spec.items()}
+    obs["pubctx"] = {nm: v[1] for nm, v in spec.items()}
+    obs["done"] = True
+    if how != "c_stop":
+        Cc.stop()
+    B.stop()
+    A.stop()
+    return obs
+
+
+def bidir_oracle(obs):
+    """A receiver whose subscription runs over a connection that is still up gets every publication of its publisher
+    exactly once, in order; one whose connection was closed gets everything published before, an in-order duplicate-free
+    part of what was published during the close, and nothing of what was published afterwards."""
+    for nm, q in obs["queues"].items():
+        pc = obs["pubctx"][nm]
+        allp = obs["pubs"][pc]
+        for rec in q:
+            if rec[:3] != [pc, "pub", "s"] or rec[3] not in allp:
+                return "wrong-record", "receiver %s got %r which was never published" % (nm, rec)
+        got = [r[3] for r in q]
+        if len(set(got)) != len(got):
+            return "duplicate-record", "receiver %s got %r" % (nm, got)
+        if got != sorted(got):
+            return "order", "receiver %s got %r" % (nm, got)
+        n0, n1 = obs["phase"]["before"][pc], obs["phase"]["settled"][pc]
+        if obs["carrier"][nm] not in obs["closed"]:
+            if got != allp:
+                return "missing-record", ("receiver %s is subscribed to %s.pub.s over connection %s, which stayed up (closed: %s via %s), "
+                                          "but got %r instead of %r" % (nm, pc, obs["carrier"][nm], obs["closed"], obs["how"], got, allp))
+        else:
+            if got[:n0] != allp[:n0]:
+                return "missing-record", "receiver %s lost publications made before its connection closed: %r of %r" % (nm, got, allp)
+            late = [v for v in got if v in allp[n1:]]
+            if late:
+                return "record-after-close", ("receiver %s still got %r although the connection %s carrying its subscription had been "
+                                              "closed and both ends had noticed" % (nm, late, obs["carrier"][nm]))
+    return None
+
+
+def run_bidir(ck, prop, n):
+    jobs = [(scenario_bidir, (ck.rng.randint(0, 10 ** 6), i % 3 == 0), dict(strategy="random" if i % 2 else "pct", seed=i))
+            for i in range(n)]
+    results = dsched.run_forked(jobs, nproc=16, wall_timeout=60.0)
+    terms, metas = [], []
+    for (fn, args, kw), res in zip(jobs, results):
+        ck.note_case(("bidir", args, kw["seed"], tuple(res.get("choices") or ())[:50]), True)
+        how = BIDIR_CLOSES[args[0] % len(BIDIR_CLOSES)]
+        ck.count("bidir:%s%s:%s" % (how, "+lines" if args[1] else "", res["status"]))
+        rp = {"kind": "bidir", "seed": args[0], "lines": args[1], "how": how, "sched": kw, "schedule": res.get("choices")}
+        if res["status"] != "ok" or not (res.get("obs") or {}).get("done"):
+            ck.report("oracle:%s:bidir:%s:%s" % (prop.lower(), how, res["status"]),
+                      "two-way-connected run did not finish (%s): %s" % (res["status"], str(res.get("info") or res.get("trace"))[:600]), rp)
+            continue
+        o = res["obs"]
+        bad = bidir_oracle(o)
+        if bad:
+            ck.report("oracle:%s:bidir:%s" % (prop.lower(), bad[0]),
+                      "%s fails on real contexts connected in both directions: %s" % (prop, bad[1]),
+                      dict(rp, queues=o["queues"], pubs=o["pubs"], notices=o["notices"]))
+        for nt in o["notices"]:
+            terms.append("(%s, %s, %s)" % (clist([S.cs(x) for x in nt["before"]]), clist([S.cs(x) for x in nt["told"]]),
+                                           clist([S.cs(x) for x in nt["after"]])))
+            metas.append((rp, o, nt, bad))
+    bad_idx = ck.run_model("C07.Corr", "peer_notice_ok", terms, "list name * list name * list name", shard=600)
+    ck.coverage["peer_notice_disagreements"] = len(bad_idx)
+    for i in bad_idx[:3]:
+        rp, o, nt, bad = metas[i]
+        ck.report("corr:peer-notice:%s" % ("oracle-fails" if bad else "model-differs"),
+                  "context %s closed a connection (%s): its router knew the aliases %r before and %r afterwards, but "
+                  "handle_peer_context_removed was told %r; the model's step is told the alias of the closed connection%s" % (
+                      nt["ctx"], o["how"], nt["before"], nt["after"], nt["told"], ": " + bad[1] if bad else ""),
+                  dict(rp, notice=nt, queues=o["queues"], pubs=o["pubs"], broken="correspondence C07.Corr.peer_notice_ok"),
+                  found_input=bool(bad))
+
+
+def replay_bidir(c):
+    import qmi.core.context, qmi.core.rpc, qmi.core.pubsub, qmi.core.messaging, qmi.core.task  # noqa
+    res = dsched.run_forked([(scenario_bidir, (c["seed"], bool(c.get("lines"))),
+                              dict(strategy="replay", schedule=list(c["schedule"] or [])))], nproc=1, wall_timeout=60.0)[0]
+    print("status:", res["status"])
+    if res["status"] != "ok":
+        print(res.get("info") or res.get("trace"))
+        return 1
+    o = res["obs"]
+    print("close:", o["how"], "closed connections:", o["closed"])
+    print("published:", o["pubs"], "phases:", o["phase"])
+    print("handle_peer_context_removed:", o["notices"])
+    print("queues:", o["queues"])
+    bad = bidir_oracle(o)
+    print("oracle:", bad or "property holds on this schedule")
+    return 1 if bad else 0
+
+
 def thread_oracle(obs, remote):
     """C07 on the call log of real threads: ops are intervals [t0,t1] of a global tick counter."""
     pubs = {e[3]: e for e in obs["log"] if e[0] == "pub"}
@@ -770,7 +1006,7 @@ def run(ck):
     sims = run_sims(ck, "c07")
     check_sims(ck, sims, "C07", ("c07",))
     # H3: threads
-    nsched = 400 if ck.tier == "quick" else 4000
+    nsched = 300 if ck.tier == "quick" else 4000
     jobs = []
     for i in range(nsched):
         remote = (i % 4 == 3)
@@ -790,7 +1026,7 @@ def run(ck):
             ck.report("oracle:c07:threads:%s" % bad[0], "C07 fails on real threads: " + bad[1],
                       dict(rp, log=res["obs"]["log"], queues=res["obs"]["queues"]))
         ck.count("threads:records", sum(len(q) for q in res["obs"]["queues"].values()))
-    nfan = 300 if ck.tier == "quick" else 3000
+    nfan = 240 if ck.tier == "quick" else 3000
     jobs = [(scenario_fanout, (ck.rng.randint(0, 10 ** 6), i % 3 == 0), dict(strategy="random" if i % 2 else "pct", seed=i))
             for i in range(nfan)]
     results = dsched.run_forked(jobs, nproc=16, wall_timeout=60.0)
@@ -807,7 +1043,8 @@ def run(ck):
             ck.report("oracle:c07:fanout:%s" % bad[0], "C07 fails on real contexts (one publisher, several subscriber contexts): " + bad[1],
                       dict(rp, queues=res["obs"]["queues"], pubs=res["obs"]["pubs"]))
         ck.count("fanout:records", sum(len(q) for q in res["obs"]["queues"].values()))
-    run_recreate(ck, "C07", 240 if ck.tier == "quick" else 3000)
+    run_recreate(ck, "C07", 180 if ck.tier == "quick" else 3000)
+    run_bidir(ck, "C07", 150 if ck.tier == "quick" else 2400)
     return ck.finish("exhaustive op sequences (12-letter alphabet, 3 prefixes) + seeded random histories on 1-3 contexts with "
                      "re-entrant interleaving inside publish + random thread schedules of real contexts; non-trivial = at "
                      "least one record or message delivered; distinct by label sequence")
@@ -834,6 +1071,8 @@ def replay(rep):
     c = rep["case"]
     if c.get("kind") == "recreate":
         return replay_recreate(c)
+    if c.get("kind") == "bidir":
+        return replay_bidir(c)
     if c.get("kind") == "fanout":
         import qmi.core.context, qmi.core.rpc, qmi.core.pubsub, qmi.core.messaging, qmi.core.task  # noqa
         res = dsched.run_forked([(scenario_fanout, (c["seed"], bool(c.get("lines"))),
